@@ -178,7 +178,14 @@ TEXT = {'C11': {'technique': 'Lean 4 proof by mutual structural induction over t
                       'every hash-iteration site extracted from the sources is a sorted one; repeated launches of the real binary with byte comparison',
          'level': 'Proved: order-independence of the one hash iteration of the code (after the repair of D11), and that the regenerated list of hash-iteration '
                   'sites contains only sorted ones. Runtime nondeterminism cannot be exhibited by a Lean model; it is searched by launching the real binary 8 '
-                  '(quick) / 50 (thorough) times per file and mode on the corpus and on generated files with several diagnostics.',
+                  '(quick) / 50 (thorough) times per file and mode on the corpus and on generated files with several diagnostics. Added: in the parser model '
+                  'the loop of check_definition runs over `sortDedup` of the free variables, which depends on them only as a SET — any hash order and '
+                  'multiplicity gives the same visits and diagnostics (C13_model_site_set_function); and a table, regenerated on every run, of every use in '
+                  'non-test code of an API whose result can differ between runs (clocks, randomness, threads, environment, pid, pointer formatting / casts / '
+                  "hashing, directory listing, hasher state, parallel iterators, shared mutable state): exactly `main`'s single joined thread and HashableRc's "
+                  'address hash, which only feeds `contains` (C13_nondeterminism_sources); the hash-iteration extractor follows type aliases (`type Cache = '
+                  'HashMap<..>`). Repeated launches of the real binary (8 quick / 50 thorough per file and mode) on the corpus, on generated multi-diagnostic '
+                  'programs and on single-syntax-error programs decide the rest.',
          'note': "Trusted: Lean kernel, standard axioms, the extractor's pattern for hash iteration, OS process semantics."},
  'C14': {'technique': 'Lean 4 proofs that the panic arms of the tokenizer and the unifier are dead and that failure lists are non-empty, `decide` that every '
                       'panic site extracted from the sources is a classified known one, model of the CLI result mapping; in-process stages under catch_unwind '
